@@ -38,10 +38,27 @@ Additional semantics (definitions in Iota/Model/GoBits.lean):
 * A slice parameter the function writes into by index (an output buffer; accepted only when its element type
   differs from that of every other slice / array parameter, so the arrays cannot overlap) stays a list; the result
   gets one more component: the content on return of the whole slice that was passed.  When such a parameter is
-  also resliced, its variable is the pair (part already passed, current window).
+  also resliced, its variable is the pair (part already passed, current window).  (Where another parameter has the
+  same element type the function is only translated under the ASSUMPTION, repeated in its doc comment, that the
+  arrays do not overlap; cmd/extract then checks that every caller passes a freshly made buffer.)
 * error ↦ Option String: none = nil, some "ErrX" = an error e with errors.Is(e, ErrX) for the package variable
   ErrX = errors.New(…) (fmt.Errorf with %w of ErrX is some "ErrX"; the message text is not modelled).
+  In a function that builds its errors as &T{ErrX, off} (T a struct type of the package with an error field and an
+  int field, *T an error): error ↦ Option (String × BitVec 64), some ("ErrX", off) = a *T with these two fields.
 * math/bits.TrailingZeros(x) ↦ Go.trailingZeros64 x.
+* x / c and x % c (c a non-zero constant, so no division panic): BitVec.sdiv / BitVec.srem on int, int8 (truncated
+  towards zero, the remainder has the sign of x, as in Go), / and % on the unsigned types.
+* "switch tag { … }" (integer tag, constant case values): the tag is evaluated once (let sw_k := tag); the clauses
+  become consecutive conditionals in source order, the condition of a clause being "the tag selects this clause or
+  a clause from which control falls through to it" ("default" = none of the case values); a clause that ends
+  with "fallthrough" simply has no effect on the conditions of the others, so a chain
+  "default: A; fallthrough; case 4: B; fallthrough; case 3: C" is
+  "if tag ∉ {4,3} then A; if tag ∉ {4,3} ∨ tag = 4 then B; if tag ∉ {4,3} ∨ tag = 4 ∨ tag = 3 then C".
+  "switch { case c1: A; case c2: B; default: D }" is "if c1 { A } else if c2 { B } else { D }" (a clause that ends
+  with return is "if c1 { A }" followed by the others).
+* "break" leaves the innermost loop: the body of a loop that contains one yields (true, state) after break and
+  (false, state) at its normal end; the loop is then Go.whileFuelB / Go.forInB, which stop at the first true.
+  As the last statement of a switch clause "break" does nothing; elsewhere inside a clause it is rejected.
 -/
 `
 
@@ -123,7 +140,13 @@ func (t *loopTr) findOutBufs() {
 		}
 		for _, q := range params {
 			if e := elemType(q.Type()); q != o && e != nil && types.Identical(e, elemType(o.Type())) {
-				t.fail(t.fd, "index assignment to the parameter `%s`: its array may overlap that of `%s` (same element type)", o.Name(), q.Name())
+				if !t.set.disjoint[t.fd.Name.Name] {
+					t.fail(t.fd, "index assignment to the parameter `%s`: its array may overlap that of `%s` (same element type); "+
+						"accepted only under the explicit assumption `%s!disjoint`", o.Name(), q.Name(), t.fd.Name.Name)
+				}
+				if n := "`" + o.Name() + "`"; len(t.mayOverlap) == 0 || t.mayOverlap[len(t.mayOverlap)-1] != n {
+					t.mayOverlap = append(t.mayOverlap, n)
+				}
 			}
 		}
 		t.outBufs = append(t.outBufs, o)
@@ -182,10 +205,21 @@ func (t *loopTr) signedCount(y ast.Expr) bool {
 // by itself it does not turn a plain-valued function into an Option-valued one (there it stays unmodelled, as documented).
 func (t *loopTr) needsFlow(n ast.Node, returns bool) bool {
 	found := false
+	var noop *ast.BranchStmt // a `break` at the end of a switch clause does nothing
 	ast.Inspect(n, func(m ast.Node) bool {
 		switch x := m.(type) {
 		case *ast.ReturnStmt:
 			found = found || returns
+		case *ast.CaseClause:
+			if k := len(x.Body); k > 0 {
+				if br, ok := x.Body[k-1].(*ast.BranchStmt); ok && br.Tok == token.BREAK && br.Label == nil {
+					noop = br
+				}
+			}
+		case *ast.BranchStmt:
+			if x.Tok == token.BREAK && x != noop {
+				found = true
+			}
 		case *ast.IndexExpr:
 			if tv, ok := t.info.Types[x]; !t.safe[x] && !(ok && tv.Value != nil) {
 				found = true
@@ -492,7 +526,13 @@ func (t *loopTr) whileStmt(s *ast.ForStmt, ind string, m blockMode, rest func(st
 	tup, ty := t.tuple(objs)
 	st := t.stateName(objs)
 	in := ind + "    "
-	body := t.unpack(in, st, objs) + t.block(s.Body.List, in, m, func(ind string) string { return ind + "Go.Flow.run " + tup })
+	fn, bm, end := "Go.whileFuel", m.noBreak(""), "Go.Flow.run "+tup
+	if breaksOut(s.Body) {
+		// the body yields (true, state) after `break`, (false, state) at its normal end
+		fn, end = "Go.whileFuelB", "Go.Flow.run (false, "+tup+")"
+		bm.brk = func(ind string) string { return ind + "Go.Flow.run (true, " + tup + ")" }
+	}
+	body := t.unpack(in, st, objs) + t.block(s.Body.List, in, bm, func(ind string) string { return ind + end })
 	// the condition only needs the variables it mentions
 	var used []string
 	for _, l := range strings.SplitAfter(t.unpack(in, st, objs), "\n") {
@@ -500,6 +540,260 @@ func (t *loopTr) whileStmt(s *ast.ForStmt, ind string, m blockMode, rest func(st
 			used = append(used, l)
 		}
 	}
-	return fmt.Sprintf("%sGo.Flow.bind (Go.whileFuel (fun (%s : %s) =>\n%s%s%s) (fun (%s : %s) =>\n%s) %s.length %s) (fun (%s : %s) =>\n%s%s)",
-		ind, st, ty, strings.Join(used, ""), in, c, st, ty, body, fuel, tup, st, ty, t.unpack(ind, st, objs), rest(ind))
+	return fmt.Sprintf("%sGo.Flow.bind (%s (fun (%s : %s) =>\n%s%s%s) (fun (%s : %s) =>\n%s) %s.length %s) (fun (%s : %s) =>\n%s%s)",
+		ind, fn, st, ty, strings.Join(used, ""), in, c, st, ty, body, fuel, tup, st, ty, t.unpack(ind, st, objs), rest(ind))
+}
+
+// ---------------------------------------------------------------- break
+
+// breaksOut: the loop body contains an unlabeled `break` that leaves this loop (not one that belongs to an inner
+// loop or switch).
+func breaksOut(body *ast.BlockStmt) bool {
+	found := false
+	ast.Inspect(body, func(n ast.Node) bool {
+		switch x := n.(type) {
+		case *ast.ForStmt, *ast.RangeStmt, *ast.SwitchStmt, *ast.TypeSwitchStmt, *ast.SelectStmt:
+			return false
+		case *ast.BranchStmt:
+			if x.Tok == token.BREAK && x.Label == nil {
+				found = true
+			}
+		}
+		return !found
+	})
+	return found
+}
+
+// ---------------------------------------------------------------- switch
+
+// switchStmt turns the clauses of a switch into conditionals (see flowHeaderText) and translates them together with
+// the statements `after` the switch.
+func (t *loopTr) switchStmt(s *ast.SwitchStmt, after []ast.Stmt, ind string, m blockMode, k func(string) string) string {
+	if s.Init != nil {
+		t.fail(s, "switch with an init statement is not supported")
+	}
+	type clause struct {
+		cc   *ast.CaseClause
+		body []ast.Stmt
+		ft   bool // ends with fallthrough
+	}
+	var cls []clause
+	def := -1
+	for i, st := range s.Body.List {
+		cc, ok := st.(*ast.CaseClause)
+		if !ok {
+			t.fail(st, "unsupported switch clause")
+		}
+		c := clause{cc: cc, body: cc.Body}
+		if n := len(c.body); n > 0 {
+			if br, ok := c.body[n-1].(*ast.BranchStmt); ok && br.Label == nil {
+				switch br.Tok {
+				case token.FALLTHROUGH:
+					c.ft, c.body = true, c.body[:n-1]
+				case token.BREAK: // leaves the switch at the end of the clause: no effect
+					c.body = c.body[:n-1]
+				}
+			}
+		}
+		if cc.List == nil {
+			if def >= 0 {
+				t.fail(cc, "switch with two default clauses")
+			}
+			def = i
+		}
+		cls = append(cls, c)
+	}
+	if n := len(cls); n > 0 && cls[n-1].ft {
+		t.fail(cls[n-1].cc, "fallthrough in the last clause")
+	}
+	block := func(c clause) *ast.BlockStmt { return &ast.BlockStmt{Lbrace: c.cc.Colon, List: c.body} }
+	var synth []ast.Stmt
+	if s.Tag == nil {
+		// switch { case c1: …; case c2: …; default: … }  =  if c1 { … } else if c2 { … } else { … }
+		var tail []ast.Stmt
+		for i := len(cls) - 1; i >= 0; i-- {
+			c := cls[i]
+			switch {
+			case c.ft:
+				t.fail(c.cc, "fallthrough in a switch without tag is not supported")
+			case i == def && i != len(cls)-1:
+				t.fail(c.cc, "in a switch without tag the default clause must be the last one")
+			case i == def:
+				tail = c.body
+				continue
+			case len(c.cc.List) != 1:
+				t.fail(c.cc, "in a switch without tag every case must have a single condition")
+			}
+			is := &ast.IfStmt{If: c.cc.Pos(), Cond: c.cc.List[0], Body: block(c)}
+			t.synthCond[is] = ""
+			if endsWithReturn(is.Body) || len(tail) == 0 {
+				// the end of the clause is not reached: the other clauses are what follows it
+				tail = append([]ast.Stmt{is}, tail...)
+			} else {
+				is.Else = &ast.BlockStmt{Lbrace: tail[0].Pos(), List: tail}
+				tail = []ast.Stmt{is}
+			}
+		}
+		synth = tail
+		if def >= 0 && len(cls) == 1 {
+			// only a default clause: its body, as a block
+			synth = []ast.Stmt{&ast.BlockStmt{Lbrace: cls[0].cc.Colon, List: cls[0].body}}
+		}
+		return t.block(append(synth, after...), ind, m, k)
+	}
+	tag, tk := t.expr(s.Tag)
+	if !tk.isNum() {
+		t.fail(s.Tag, "switch on %s (only integer tags with constant case values are supported)", t.typeOf(s.Tag).Type)
+	}
+	pre := t.guards(s, ind, m)
+	t.fresh++
+	sw := fmt.Sprintf("sw_%d", t.fresh)
+	// match[i]: the tag selects clause i
+	var all []string
+	var seen []constant.Value
+	match := make([]string, len(cls))
+	for i, c := range cls {
+		var eqs []string
+		for _, e := range c.cc.List {
+			tv := t.typeOf(e)
+			if tv.Value == nil {
+				t.fail(e, "switch: only constant case values are supported")
+			}
+			for _, v := range seen {
+				if constant.Compare(v, token.EQL, tv.Value) {
+					t.fail(e, "switch: duplicate case value")
+				}
+			}
+			seen = append(seen, tv.Value)
+			eqs = append(eqs, "("+sw+" == "+t.constLit(e, tv.Value, tk)+")")
+		}
+		all = append(all, eqs...)
+		match[i] = orText(eqs)
+	}
+	if def >= 0 {
+		match[def] = "true"
+		if len(all) > 0 {
+			match[def] = "(!" + orText(all) + ")"
+		}
+	}
+	// a clause runs when the tag selects it or a clause from which control falls through to it
+	start := 0
+	for i, c := range cls {
+		if i > 0 && !cls[i-1].ft {
+			start = i
+		}
+		if len(c.body) == 0 {
+			continue
+		}
+		is := &ast.IfStmt{If: c.cc.Pos(), Cond: &ast.Ident{NamePos: c.cc.Pos(), Name: "_"}, Body: block(c)}
+		t.synthCond[is] = orText(match[start : i+1])
+		synth = append(synth, is)
+	}
+	return pre + fmt.Sprintf("%slet %s : %s := %s\n", ind, sw, tk.lean(), tag) + t.block(append(synth, after...), ind, m, k)
+}
+
+// orText renders the disjunction of Bool texts.
+func orText(cs []string) string {
+	switch len(cs) {
+	case 0:
+		return "false"
+	case 1:
+		return cs[0]
+	}
+	return "(" + strings.Join(cs, " || ") + ")"
+}
+
+// ---------------------------------------------------------------- &T{ErrX, off}
+
+// errAtType: T is a struct type of the translated package with exactly an error field and an int field (returned:
+// their indices), and *T is an error.
+func (t *loopTr) errAtType(ty types.Type) (errField, offField int, ok bool) {
+	named, isNamed := ty.(*types.Named)
+	if !isNamed || named.Obj().Pkg() != t.set.tp.tpkg {
+		return 0, 0, false
+	}
+	st, isStruct := named.Underlying().(*types.Struct)
+	if !isStruct || st.NumFields() != 2 {
+		return 0, 0, false
+	}
+	errTy := types.Universe.Lookup("error").Type()
+	errField, offField = -1, -1
+	for i := 0; i < 2; i++ {
+		ft := st.Field(i).Type()
+		if b, isBasic := ft.Underlying().(*types.Basic); types.Identical(ft, errTy) {
+			errField = i
+		} else if isBasic && b.Kind() == types.Int {
+			offField = i
+		}
+	}
+	if errField < 0 || offField < 0 || !types.Implements(types.NewPointer(named), errTy.Underlying().(*types.Interface)) {
+		return 0, 0, false
+	}
+	return errField, offField, true
+}
+
+// buildsErrAt: the function contains an expression &T{…} with T as in errAtType.
+func (t *loopTr) buildsErrAt() bool {
+	found := false
+	ast.Inspect(t.fd.Body, func(n ast.Node) bool {
+		if u, ok := n.(*ast.UnaryExpr); ok && u.Op == token.AND {
+			if cl, ok := unparen(u.X).(*ast.CompositeLit); ok {
+				if tv, ok := t.info.Types[cl]; ok {
+					if _, _, ok := t.errAtType(tv.Type); ok {
+						found = true
+					}
+				}
+			}
+		}
+		return !found
+	})
+	return found
+}
+
+// errLit translates &T{ErrX, off}.
+func (t *loopTr) errLit(x *ast.UnaryExpr) (string, lkind) {
+	const shape = "`&` is only supported in `&T{ErrX, off}` with T a struct type of the package that has an error field and an int field, " +
+		"*T an error, ErrX a package-level errors.New variable"
+	cl, ok := unparen(x.X).(*ast.CompositeLit)
+	if !ok {
+		t.fail(x, "%s", shape)
+	}
+	ei, oi, ok := t.errAtType(t.typeOf(cl).Type)
+	if !ok || len(cl.Elts) != 2 || !t.errAt {
+		t.fail(x, "%s", shape)
+	}
+	st := t.typeOf(cl).Type.Underlying().(*types.Struct)
+	elts := make([]ast.Expr, 2)
+	for i, el := range cl.Elts {
+		if kv, keyed := el.(*ast.KeyValueExpr); keyed {
+			id, isId := kv.Key.(*ast.Ident)
+			if !isId {
+				t.fail(x, "%s", shape)
+			}
+			for j := 0; j < 2; j++ {
+				if st.Field(j).Name() == id.Name {
+					elts[j] = kv.Value
+				}
+			}
+		} else {
+			elts[i] = el
+		}
+	}
+	if elts[0] == nil || elts[1] == nil {
+		t.fail(x, "%s", shape)
+	}
+	id, isId := unparen(elts[ei]).(*ast.Ident)
+	if !isId {
+		t.fail(x, "%s", shape)
+	}
+	v, isVar := t.info.Uses[id].(*types.Var)
+	if !isVar || v.Parent() != t.set.tp.tpkg.Scope() {
+		t.fail(x, "%s", shape)
+	}
+	name := t.set.errVarName(t, v, x)
+	off, ok2 := t.expr(elts[oi])
+	if ok2 != kInt {
+		t.fail(x, "%s", shape)
+	}
+	return fmt.Sprintf("(some (%s, %s))", leanString(name), off), kErrAt
 }
